@@ -1,12 +1,105 @@
-/- C13 — property theorems (filled below). -/
-import SkNet.Model.Vote
-import SkNet.Model.Classify
-import SkNet.Model.ClassMetrics
-import SkNet.Spec.Classify
+/-
+C13 — Semi-supervised predictions respect the seeds and the local evidence.
+
+Property theorems about the models of SkNet/Model/Vote.lean, Classify.lean, ClassMetrics.lean against the
+specification of SkNet/Spec/Classify.lean.  Lemmas live in SkNet/Lemmas/Vote*.lean, Classify*.lean.
+-/
+import SkNet.Lemmas.VoteFit
 
 namespace SkNet.C13
-open SkNet
+open SkNet SkNet.Classify
 
-theorem placeholder_nLabels_nil : Vote.nLabels [] = 0 := rfl
+/-! ## Label propagation -/
+
+/-- the 5-node witness of DESIGN §6 (F2): node 0 has neighbours 1 (label 0, weight 10), 2 and 3 (label 1,
+    weight 1 each); node 4 hangs on node 3 with weight 4 -/
+def witnessGraph : Csr Rat :=
+  { nRow := 5, nCol := 5, indptr := #[0,3,4,5,7,8], indices := #[1,2,3,0,0,0,4,3], data := #[10,1,1,10,1,1,4,4] }
+
+/-- ★ **vote_fixed_point** (kernel).  If a sweep of `vote_update` over distinct in-range nodes returns the
+    labels it was given (non-negative weights), then every updated node with a labelled neighbour holds a
+    non-negative label, carried by one of its neighbours, whose total vote among its neighbours is maximal. -/
+theorem vote_fixed_point (c : Csr Rat) (labels : List Int) (index : List Nat)
+    (hw : ∀ p, 0 ≤ c.data.getD p 0) (hnd : index.Nodup) (hi : ∀ i ∈ index, i < labels.length)
+    (hfix : Vote.voteUpdate c labels index = labels) :
+    Spec.fixedPointOK c labels index = true :=
+  Vote.fixedPointOK_of_nodeOK c labels index (Vote.voteUpdate_fixed c hw labels index hnd hi hfix)
+
+/-- non-vacuity: on the witness graph the labels `[0,0,1,1,1]` are a fixed point of the sweep over the two
+    unlabelled nodes, reached from `[-1,0,1,1,-1]` in one sweep (weight 10 beats 1+1 at node 0) -/
+example : Vote.voteUpdate witnessGraph [-1,0,1,1,-1] [0,4] = [0,0,1,1,1] ∧
+    Vote.voteUpdate witnessGraph [0,0,1,1,1] [0,4] = [0,0,1,1,1] ∧
+    (∀ p, 0 ≤ witnessGraph.data.getD p 0) := by
+  exact ⟨by decide +kernel, by decide +kernel,
+    Vote.getD_nonneg_of_forall _ (by decide +kernel)⟩
+
+/-- The kernel as pinned (before the repair of F2) did **not** have the property: on the witness graph the
+    sweep over nodes 0 and 4 leaves `[1,0,1,1,1]` unchanged, although label 0 has total vote 10 at node 0 and
+    label 1 only 2.  (Replayed on the implementation: corpus/C13.jsonl, first line.) -/
+theorem pinned_vote_not_fixed_point :
+    Vote.Pinned.voteUpdate? witnessGraph [-1,0,1,1,-1] [0,4] = some [1,0,1,1,1] ∧
+    Vote.Pinned.voteUpdate? witnessGraph [1,0,1,1,1] [0,4] = some [1,0,1,1,1] ∧
+    Spec.fixedPointOK witnessGraph [1,0,1,1,1] [0,4] = false := by
+  refine ⟨by decide +kernel, by decide +kernel, by decide +kernel⟩
+
+/-- The pinned kernel also left its buffers: with fewer stored entries than nodes the read `data[jj]` is out
+    of bounds, and a label `≥ n` is written past `votes` (the segfault of F2). -/
+theorem pinned_vote_out_of_bounds :
+    Vote.Pinned.voteUpdate? { nRow := 4, nCol := 4, indptr := #[0,1,1,1,1], indices := #[3], data := #[1] }
+      [-1,0,1,2] [0] = none ∧
+    Vote.Pinned.voteUpdate? { nRow := 2, nCol := 2, indptr := #[0,1,2], indices := #[1,0], data := #[1,1] }
+      [7,9] [0] = none := by
+  refine ⟨by decide +kernel, by decide +kernel⟩
+
+/-- ★ **vote_fixed_point** (`Propagation.fit`).  When the loop of `fit` stops on labels that a further sweep
+    leaves unchanged — in particular when it stops *because* a sweep changed nothing —, every non-seed node
+    with a labelled neighbour holds a label of maximal total vote among its neighbours: edge weights when
+    `weighted`, counts otherwise (`withWeights` replaces the data by ones). -/
+theorem propagation_fixed_point (c : Csr Rat) (hw : ∀ p, 0 ≤ c.data.getD p 0) (values : List Int)
+    (a : Vote.PropArgs) (fuel : Nat) (hsig : Vote.SigmaOK a.sigma (Vote.instantiateVars values).2.length)
+    (l : List Int) (t : Nat) (h : Vote.fit c values a fuel = some (l, t))
+    (hstable : Vote.voteUpdate (Vote.withWeights c a.weighted) l (Vote.start values a.sigma).2 = l) :
+    Spec.fixedPointOK (Vote.withWeights c a.weighted) l (Vote.start values a.sigma).2 = true := by
+  have hinv := Vote.fitInv_result c hw values a fuel hsig l t h
+  apply vote_fixed_point _ l _ (Vote.withWeights_nonneg c a.weighted hw)
+  · exact Vote.reorder_nodup _ _ (Vote.instantiateVars_index_nodup values) hsig
+  · intro i hi
+    rw [hinv.len]
+    exact Vote.instantiateVars_index_lt values i (Vote.mem_reorder _ _ hsig i hi)
+  · exact hstable
+
+/-- ★ **seeds_kept** (Propagation).  With at least two classes among the given labels, every seed keeps its
+    label, whatever the number of sweeps, the node order and the weighting. -/
+theorem propagation_seeds_kept (c : Csr Rat) (hw : ∀ p, 0 ≤ c.data.getD p 0) (values : List Int)
+    (a : Vote.PropArgs) (fuel : Nat) (hsig : Vote.SigmaOK a.sigma (Vote.instantiateVars values).2.length)
+    (hs : Vote.singleClass values = false)
+    (l : List Int) (t : Nat) (h : Vote.fit c values a fuel = some (l, t)) :
+    ∀ i, 0 ≤ values.getD i (-1) → l.getD i (-1) = values.getD i (-1) := by
+  intro i hseed
+  have hinv := Vote.fitInv_result c hw values a fuel hsig l t h
+  obtain ⟨hnot, hval⟩ := Vote.instantiateVars_seed values hs i hseed
+  rw [hinv.out i (-1) (fun hm => hnot (Vote.mem_reorder _ _ hsig i hm))]
+  exact hval
+
+/-- ★ **labels_in_seed_set** (Propagation).  Every predicted label is one of the labels the loop started
+    from: a seed label or `-1` (with no label or a single class: the node indices). -/
+theorem propagation_labels_in_seed_set (c : Csr Rat) (hw : ∀ p, 0 ≤ c.data.getD p 0) (values : List Int)
+    (a : Vote.PropArgs) (fuel : Nat) (hsig : Vote.SigmaOK a.sigma (Vote.instantiateVars values).2.length)
+    (l : List Int) (t : Nat) (h : Vote.fit c values a fuel = some (l, t)) :
+    l.length = values.length ∧ ∀ x ∈ l, x ∈ (Vote.instantiateVars values).1 := by
+  have hinv := Vote.fitInv_result c hw values a fuel hsig l t h
+  exact ⟨hinv.len, hinv.sub⟩
+
+/-- non-vacuity of the three theorems above: `fit` on the witness graph with seeds `{1:0, 2:1, 3:1}` in the
+    order `[4, 0]` (a permutation of the two positions) stops after two sweeps on a stable configuration. -/
+example : Vote.fit witnessGraph [-1,0,1,1,-1] { sigma := some [1,0] } 10 = some ([0,0,1,1,1], 2) ∧
+    Vote.SigmaOK (some [1,0]) (Vote.instantiateVars [-1,0,1,1,-1]).2.length ∧
+    Vote.singleClass [-1,0,1,1,-1] = false ∧
+    Vote.voteUpdate (Vote.withWeights witnessGraph true) [0,0,1,1,1] (Vote.start [-1,0,1,1,-1] (some [1,0])).2
+      = [0,0,1,1,1] := by
+  refine ⟨by decide +kernel, ?_, by decide +kernel, by decide +kernel⟩
+  intro s hs
+  cases hs
+  exact ⟨by decide, by decide +kernel⟩
 
 end SkNet.C13
